@@ -122,6 +122,10 @@ func spellByte(sb *strings.Builder, b byte, r *Rng, style int) {
 		canon()
 		return
 	}
+	if b >= 0x80 && r.Chance(50) {
+		sb.WriteByte(b) // raw high octets are legal master-file text (UTF-8 names typed by users)
+		return
+	}
 	switch r.Intn(4) {
 	case 0:
 		fmt.Fprintf(sb, "\\%03d", b)
@@ -171,7 +175,8 @@ func specIsFqdn(s string) bool {
 // mutateText: small random edits of a presentation string (to reach invalid spellings)
 func mutateText(s string, r *Rng) string {
 	b := []byte(s)
-	frag := []string{"\\", ".", "..", "\\.", "\\046", "\\000", "\\1", "\\12", "\\256", "\\999", "a", "A", "0", "@", "\\\\", " ", "\""}
+	frag := []string{"\\", ".", "..", "\\.", "\\046", "\\000", "\\1", "\\12", "\\256", "\\999", "a", "A", "0", "@", "\\\\", " ", "\"",
+		"\xc3\xa9", "\xe2\x82\xac", "\xf0\x9f\x98\x80", "\xc3\xa9\\", "\xf0\x9f\x98\x80\\", "\xc3"}
 	for k := 0; k < 1+r.Intn(2); k++ {
 		switch r.Intn(4) {
 		case 0:
